@@ -208,3 +208,205 @@ Proof.
   intros Hr Hc. apply load_members_spec. exists (row - r0 + 1), (col - c0 + 1).
   repeat split; lia.
 Qed.
+
+(* ================================== operators and lifted functions over a target *)
+(* the member of an R x C matrix result, by position: inside (with a single
+   row / column repeated) or #N/A *)
+Lemma member_of_matrix out R C h w i j :
+  length out = R -> (1 <= R)%nat -> (1 <= C)%nat -> rectangular C out ->
+  1 <= i <= h -> 1 <= j <= w ->
+  let ii := if Nat.eqb R 1 then O else pos i in
+  let jj := if Nat.eqb C 1 then O else pos j in
+  (forall x, elem2 out ii jj = Some x -> cse_member h w (matrix out) i j = shown x)
+  /\ (~ ((ii < R)%nat /\ (jj < C)%nat) -> cse_member h w (matrix out) i j = Ok NA).
+Proof.
+  intros HR HR1 HC Hrect Hi Hj ii jj.
+  destruct (member_shows_own_element out R C h w i j HR HR1 HC Hrect Hi Hj) as [Hin Hout].
+  split; [exact Hin|]. intros Hn. apply Hout. subst ii jj. unfold pos in *.
+  destruct (Nat.eqb_spec R 1) as [ER|ER]; destruct (Nat.eqb_spec C 1) as [EC|EC].
+  - exfalso. apply Hn. lia.
+  - right. split; [exact EC|]. destruct (Z_lt_le_dec (Z.of_nat C) j); [assumption|].
+    exfalso. apply Hn. lia.
+  - left. split; [exact ER|]. destruct (Z_lt_le_dec (Z.of_nat R) i); [assumption|].
+    exfalso. apply Hn. lia.
+  - destruct (Z_lt_le_dec (Z.of_nat R) i); [left; auto|].
+    destruct (Z_lt_le_dec (Z.of_nat C) j); [right; auto|].
+    exfalso. apply Hn. lia.
+Qed.
+
+(* array_fixup's result entered over a target *)
+Lemma op_member l o r a b R C res h w i j :
+  to_nd l = Ok a -> to_nd r = Ok b -> bshape a b = Some (R, C) ->
+  array_fixup l o r = Ok res ->
+  1 <= i <= h -> 1 <= j <= w ->
+  let ii := if Nat.eqb R 1 then O else pos i in
+  let jj := if Nat.eqb C 1 then O else pos j in
+  ((ii < R)%nat /\ (jj < C)%nat ->
+     exists u v x, belem a ii jj = Some u /\ belem b ii jj = Some v /\ fixup u o v = Ok x
+                   /\ cse_member h w res i j = shown x)
+  /\ (~ ((ii < R)%nat /\ (jj < C)%nat) -> cse_member h w res i j = Ok NA).
+Proof.
+  intros Ha Hb Hs Hres Hi Hj ii jj.
+  destruct (op_pointwise l o r a b R C res Ha Hb Hs Hres) as (out & -> & Lo & Ro & Eo).
+  destruct (bshape_fits a b R C (to_nd_wf l a Ha) (to_nd_wf r b Hb) Hs) as (_ & _ & HR & HC).
+  destruct (member_of_matrix out R C h w i j Lo HR HC Ro Hi Hj) as [Hin Hout].
+  split; [|exact Hout].
+  intros [Hii Hjj]. destruct (Eo ii jj Hii Hjj) as (u & v & x & Hu & Hv & Hx & Hel).
+  exists u, v, x. repeat split; try assumption. apply Hin. exact Hel.
+Qed.
+
+Lemma to_nd_operand l a : to_nd l = Ok a -> operand l.
+Proof.
+  unfold to_nd, operand. destruct l; try discriminate; intros _;
+    try (left; reflexivity). right. eauto.
+Qed.
+
+Lemma to_nd_array l rows : to_nd l = Ok (Nd2 rows) -> exists x, l = VTuple x.
+Proof.
+  unfold to_nd. destruct l; try discriminate; try (intros H; injection H; discriminate). eauto.
+Qed.
+
+(* C13_formula_op_member: the whole clause for operators.  The formula
+   =l o r (the compiled code calls op_fixup) entered over an h x w target:
+   the member stamped (i, j) shows the scalar operator on the operands'
+   elements at the broadcast indices, #N/A outside the broadcast shape. *)
+Theorem formula_op_member l o r a b R C res h w i j :
+  to_nd l = Ok a -> to_nd r = Ok b -> bshape a b = Some (R, C) ->
+  (scalar_like l = true -> in_error_codes l = Ok false) ->
+  (scalar_like r = true -> in_error_codes r = Ok false) ->
+  op_fixup l o r = Ok res ->
+  1 <= i <= h -> 1 <= j <= w ->
+  let ii := if Nat.eqb R 1 then O else pos i in
+  let jj := if Nat.eqb C 1 then O else pos j in
+  ((ii < R)%nat /\ (jj < C)%nat ->
+     exists u v x, belem a ii jj = Some u /\ belem b ii jj = Some v /\ fixup u o v = Ok x
+                   /\ cse_member h w res i j = shown x)
+  /\ (~ ((ii < R)%nat /\ (jj < C)%nat) -> cse_member h w res i j = Ok NA).
+Proof.
+  intros Ha Hb Hs El Er Hres. rewrite op_dispatch in Hres.
+  - apply (op_member l o r a b R C res h w i j Ha Hb Hs Hres).
+  - apply (to_nd_operand l a Ha).
+  - apply (to_nd_operand r b Hb).
+  - exact El.
+  - exact Er.
+  - destruct a as [va|ra].
+    + destruct b as [vb|rb]; [discriminate Hs|]. right. apply (to_nd_array r rb Hb).
+    + left. apply (to_nd_array l ra Ha).
+Qed.
+
+(* the elements shown are scalars: blank -> 0, everything else itself *)
+Lemma belem_scalar l a i j u : to_nd l = Ok a -> belem a i j = Some u -> scalar_like u = true.
+Proof.
+  unfold to_nd. destruct l; try discriminate;
+    try (intros H; injection H as <-; cbn [belem]; intros E; injection E as <-; reflexivity).
+  destruct (rows_of l) as [[|r0 rest]|]; try discriminate.
+  destruct (negb (Nat.eqb (length r0) 0) && rect (length r0) (r0 :: rest)
+            && forallb (forallb scalar_like) (r0 :: rest)) eqn:E; [|discriminate].
+  intros H. injection H as <-. apply andb_true_iff in E. destruct E as [_ E].
+  cbn [belem]. set (rows := r0 :: rest) in *.
+  destruct (nth_error rows (if Nat.eqb (length rows) 1 then O else i)) as [row|] eqn:Er; [|discriminate].
+  intros Eu. rewrite forallb_forall in E. specialize (E row (nth_error_In _ _ Er)).
+  rewrite forallb_forall in E. apply E. eapply nth_error_In. exact Eu.
+Qed.
+
+(* lifted functions: cse_wrapper's result entered over a target *)
+Theorem fun_member (f : list pyval -> res pyval) (idx : nat -> bool) R C args fl a res h w i j :
+  (1 <= R)%nat -> (1 <= C)%nat ->
+  mapM (cse_flag idx) (enumerate 0 args) = Ok fl ->
+  Forall2 (arg_shape R C) fl args ->
+  first_true fl args = Some a ->
+  cse_wrapper f idx args = Ok res ->
+  1 <= i <= h -> 1 <= j <= w ->
+  let ii := if Nat.eqb R 1 then O else pos i in
+  let jj := if Nat.eqb C 1 then O else pos j in
+  ((ii < R)%nat /\ (jj < C)%nat ->
+     exists picked x, Forall2 (fun ba p => arg_at ii jj ba = Some p) (combine fl args) picked
+                      /\ f picked = Ok x /\ cse_member h w res i j = shown x)
+  /\ (~ ((ii < R)%nat /\ (jj < C)%nat) -> cse_member h w res i j = Ok NA).
+Proof.
+  intros HR HC Efl Hshape Efirst Hres Hi Hj ii jj.
+  destruct (fun_pointwise f idx R C args fl a res HR HC Efl Hshape Efirst Hres)
+    as (out & -> & Lo & Ro & Eo).
+  destruct (member_of_matrix out R C h w i j Lo HR HC Ro Hi Hj) as [Hin Hout].
+  split; [|exact Hout].
+  intros [Hii Hjj]. destruct (Eo ii jj Hii Hjj) as (picked & x & Hp & Hx & Hel).
+  exists picked, x. repeat split; try assumption. apply Hin. exact Hel.
+Qed.
+
+(* ======================================================== scalar error operands *)
+(* array o scalar-error, exactly: the fix-up returns the scalar error for the
+   whole array, while the scalar operator gives the LEFT element where that is
+   an error itself and the right error elsewhere *)
+Theorem op_scalar_error_right_exact x o r :
+  scalar_like r = true -> in_error_codes r = Ok true ->
+  op_fixup (VTuple x) o r = Ok r /\
+  forall u, scalar_like u = true ->
+    exists e, in_error_codes u = Ok e /\ fixup u o r = Ok (if e then u else r).
+Proof.
+  intros Sr Er. destruct (op_scalar_error_right_partial x o r Sr Er) as [H1 H2].
+  split; [exact H1|]. intros u Su.
+  assert (Hsc : scalar u) by (destruct u; try discriminate; exact I).
+  destruct (in_error_scalar u Hsc) as ([|] & Eu).
+  - exists true. split; [exact Eu|]. apply error_left. exact Eu.
+  - exists false. split; [exact Eu|]. apply H2. exact Eu.
+Qed.
+
+(* … and entered over a target, every member shows that error — also where the
+   array does not reach (the known finding C13-scalar-error-short-circuit) *)
+Theorem scalar_error_member l o r res h w i j :
+  operand l -> operand r ->
+  (scalar_like l = true /\ in_error_codes l = Ok true /\ res = l) \/
+  ((exists x, l = VTuple x) /\ scalar_like r = true /\ in_error_codes r = Ok true /\ res = r) ->
+  1 <= i <= h -> 1 <= j <= w ->
+  op_fixup l o r = Ok res /\ cse_member h w res i j = Ok res.
+Proof.
+  intros Ol Or Hc Hi Hj.
+  assert (Hne : forall e, scalar_like e = true -> in_error_codes e = Ok true ->
+                          cse_member h w e i j = Ok e).
+  { intros e Se Ee. rewrite (member_scalar e h w i j Se Hi Hj).
+    destruct e; try discriminate Se; try discriminate Ee.
+    destruct (is_blank (VStr s)) eqn:B; [|reflexivity].
+    exfalso. unfold is_blank in B. unfold in_error_codes in Ee.
+    assert (Hs : VStr s = excelutil.c_EMPTY).
+    { unfold excelutil.c_EMPTY in *. cbn [py_eq] in B. apply str_eqb_eq in B. congruence. }
+    rewrite Hs in Ee. discriminate Ee. }
+  destruct Hc as [(Sl & El & ->)|((x & ->) & Sr & Er & ->)].
+  - split; [apply (op_scalar_error_left l o r Sl Or El)|apply Hne; assumption].
+  - split; [apply (op_scalar_error_right_partial x o r Sr Er)|apply Hne; assumption].
+Qed.
+
+(* ================================================== examples (non-vacuity) *)
+Definition m23 : list (list pyval) := [[VInt 1; VNone; VInt 3]; [VInt 4; VInt 5; VInt 6]].
+
+Example ex_member_inside : cse_member 3 2 (matrix m23) 2 2 = Ok (VInt 5).
+Proof. vm_compute. reflexivity. Qed.
+Example ex_member_blank : cse_member 3 2 (matrix m23) 1 2 = Ok (VInt 0).
+Proof. vm_compute. reflexivity. Qed.
+Example ex_member_outside : cse_member 3 2 (matrix m23) 3 1 = Ok NA.
+Proof. vm_compute. reflexivity. Qed.
+Example ex_member_row_repeated : cse_member 3 2 (matrix [[VInt 7; VInt 8]]) 3 2 = Ok (VInt 8).
+Proof. vm_compute. reflexivity. Qed.
+Example ex_member_hyps :
+  length m23 = 2%nat /\ rectangular 3 m23 /\ 1 <= 2 <= 3 /\ 1 <= 2 <= 2
+  /\ elem2 m23 (pos 2) (pos 2) = Some (VInt 5).
+Proof. repeat split; try lia; repeat constructor. Qed.
+Example ex_members :
+  cse_members 2 3 (matrix [[VInt 1]; [VInt 2]; [VInt 3]])
+  = Ok (matrix [[VInt 1; VInt 1; VInt 1]; [VInt 2; VInt 2; VInt 2]]).
+Proof. vm_compute. reflexivity. Qed.
+Example ex_load_members :
+  load_members 10 6 2 2
+  = [((10, 6), (1, 1, 2, 2)); ((10, 7), (1, 2, 2, 2)); ((11, 6), (2, 1, 2, 2)); ((11, 7), (2, 2, 2, 2))]
+  /\ member_range 11 7 (2, 2, 2, 2) = (6, 10, 7, 11).
+Proof. split; reflexivity. Qed.
+(* =A1:B1 + F1:F2 over a 3 x 3 target: member (2, 2) is 2 + 20, member (3, 1) is #N/A *)
+Definition r22 : pyval := matrix [[VInt 11; VInt 12]; [VInt 21; VInt 22]].
+Example ex_formula_op :
+  op_fixup (matrix [[VInt 1; VInt 2]]) Add (matrix [[VInt 10]; [VInt 20]]) = Ok r22
+  /\ cse_member 3 3 r22 2 2 = Ok (VInt 22) /\ cse_member 3 3 r22 3 1 = Ok NA
+  /\ bshape (Nd2 [[VInt 1; VInt 2]]) (Nd2 [[VInt 10]; [VInt 20]]) = Some (2%nat, 2%nat).
+Proof. split; [|split; [|split]]; vm_compute; reflexivity. Qed.
+Example ex_scalar_error_member :
+  op_fixup (matrix [[VInt 1; VInt 2]]) Add excelutil.c_DIV0 = Ok excelutil.c_DIV0
+  /\ cse_member 2 3 excelutil.c_DIV0 2 3 = Ok excelutil.c_DIV0.
+Proof. vm_compute. split; reflexivity. Qed.
